@@ -15,88 +15,104 @@ package object
 //@ ensures oneof(result, -1, 0, 1)
 
 //@ func (*Bool).Compare
-//@ props C15
+//@ props C15 C16
 //@ inline
 //@ requires b != nil && other != nil && ref(other) != nil
 //@ ensures[C15.cmp.range] result1 == nil ==> oneof(result0, -1, 0, 1)
+//@ ensures[C16.sort.cmp.range] result1 == nil ==> oneof(result0, -1, 0, 1)
 
 //@ func (*Buffer).Compare
-//@ props C15
+//@ props C15 C16
 //@ inline
 //@ requires b != nil && other != nil && ref(other) != nil
 //@ ensures[C15.cmp.range] result1 == nil ==> oneof(result0, -1, 0, 1)
+//@ ensures[C16.sort.cmp.range] result1 == nil ==> oneof(result0, -1, 0, 1)
 
 //@ func (*Byte).Compare
-//@ props C15
+//@ props C15 C16
 //@ inline
 //@ requires b != nil && other != nil && ref(other) != nil
 //@ ensures[C15.cmp.range] result1 == nil ==> oneof(result0, -1, 0, 1)
+//@ ensures[C16.sort.cmp.range] result1 == nil ==> oneof(result0, -1, 0, 1)
 
 //@ func (*ByteSlice).Compare
-//@ props C15
+//@ props C15 C16
 //@ inline
 //@ requires b != nil && other != nil && ref(other) != nil
 //@ ensures[C15.cmp.range] result1 == nil ==> oneof(result0, -1, 0, 1)
+//@ ensures[C16.sort.cmp.range] result1 == nil ==> oneof(result0, -1, 0, 1)
 
 //@ func (*Error).Compare
-//@ props C15
+//@ props C15 C16
 //@ inline
 //@ requires e != nil && other != nil && ref(other) != nil
 //@ ensures[C15.cmp.range] result1 == nil ==> oneof(result0, -1, 0, 1)
+//@ ensures[C16.sort.cmp.range] result1 == nil ==> oneof(result0, -1, 0, 1)
 
 //@ func (*FileMode).Compare
-//@ props C15
+//@ props C15 C16
 //@ inline
 //@ requires m != nil && other != nil && ref(other) != nil
 //@ ensures[C15.cmp.range] result1 == nil ==> oneof(result0, -1, 0, 1)
+//@ ensures[C16.sort.cmp.range] result1 == nil ==> oneof(result0, -1, 0, 1)
 
 //@ func (*Float).Compare
-//@ props C15
+//@ props C15 C16
 //@ inline
 //@ requires f != nil && other != nil && ref(other) != nil
 //@ ensures[C15.cmp.range] result1 == nil ==> oneof(result0, -1, 0, 1)
+//@ ensures[C16.sort.cmp.range] result1 == nil ==> oneof(result0, -1, 0, 1)
 
 //@ func (*Int).Compare
-//@ props C15
+//@ props C15 C16
 //@ inline
 //@ requires i != nil && other != nil && ref(other) != nil
 //@ ensures[C15.cmp.range] result1 == nil ==> oneof(result0, -1, 0, 1)
+//@ ensures[C16.sort.cmp.range] result1 == nil ==> oneof(result0, -1, 0, 1)
 
 //@ func (*Module).Compare
-//@ props C15
+//@ props C15 C16
 //@ inline
 //@ requires m != nil && other != nil && ref(other) != nil
 //@ ensures[C15.cmp.range] result1 == nil ==> oneof(result0, -1, 0, 1)
+//@ ensures[C16.sort.cmp.range] result1 == nil ==> oneof(result0, -1, 0, 1)
 
 //@ func (*NilType).Compare
-//@ props C15
+//@ props C15 C16
 //@ inline
 //@ requires n != nil && other != nil && ref(other) != nil
 //@ ensures[C15.cmp.range] result1 == nil ==> oneof(result0, -1, 0, 1)
+//@ ensures[C16.sort.cmp.range] result1 == nil ==> oneof(result0, -1, 0, 1)
 
 //@ func (*String).Compare
-//@ props C15
+//@ props C15 C16
 //@ inline
 //@ requires s != nil && other != nil && ref(other) != nil
 //@ ensures[C15.cmp.range] result1 == nil ==> oneof(result0, -1, 0, 1)
+//@ ensures[C16.sort.cmp.range] result1 == nil ==> oneof(result0, -1, 0, 1)
 
 //@ func (*Time).Compare
-//@ props C15
+//@ props C15 C16
 //@ inline
 //@ requires t != nil && other != nil && ref(other) != nil
 //@ ensures[C15.cmp.range] result1 == nil ==> oneof(result0, -1, 0, 1)
+//@ ensures[C16.sort.cmp.range] result1 == nil ==> oneof(result0, -1, 0, 1)
 
 // sorted(): object.Sort orders by "Compare == -1" (the comparison itself is checked: sortby) and leaves the slice a
 // permutation of its input with no element placed before one it compares less than.
 // Assumed: sort.SliceStable permutes its slice and leaves it sorted by the comparison (engine model; holds when
 // the comparison is a strict weak order, which for one comparable type is C15.cmp.* above).
 //@ func Sort
-//@ props C15
+//@ props C15 C16
 // ("mutually comparable input": every item implements Comparable; for other items the closure records a type error -
 // unit Sort$1 below: KF-73 fixed, it used to go on and call Compare on the nil interface)
 //@ requires forall(k, 0, len(items), items[k] != nil && ref(items[k]) != nil && implements(items[k], Comparable))
 //@ sortby[C15.sort.less] 1: CMPo(items[a], items[b]) == -1
 //@ ensures[C15.sort.ordered] forall(i, 0, len(items), forall(j, i + 1, len(items), CMPo(items[j], items[i]) != -1))
+// C16 (list.sort() and sorted() are container operations of C16: the result is ordered by Compare - which needs the
+// comparison used by the sort, `== -1`, to agree with the order Compare defines, i.e. every Compare three-valued:
+// seed C16i returned the difference of two bytes, so bytes two or more apart counted as equal and stayed unsorted)
+//@ ensures[C16.sort.ordered] forall(i, 0, len(items), forall(j, i + 1, len(items), CMPo(items[j], items[i]) != -1))
 
 // C03: the comparison closure of Sort dereferences no nil interface, whatever the items are (sort.SliceStable calls it
 // with indices inside the slice; the items of a list are never nil).
